@@ -235,6 +235,7 @@ def ff_mods(ffw):
 # ------------------------------------------------------------------------------------------------------------
 
 _ATLAS = {}
+PATH5 = [(5, [(0, 1), (1, 2), (2, 3), (3, 4)])]      # quick tier, multi-residue worlds only: two block copies separated by a single residue
 
 
 def atlas_graphs(max_nodes):
@@ -306,6 +307,14 @@ def quiet_load(modname):
         return load(modname)
 
 
+def _where(exc):
+    """function in which the exception was raised (used to tell classes of crashes apart, never to excuse one)"""
+    tb = exc.__traceback__
+    while tb.tb_next is not None:
+        tb = tb.tb_next
+    return tb.tb_frame.f_code.co_name
+
+
 def run_pipeline(paths, gw, modsel=None, name="test"):
     """returns (stage after ApplyLinks, stage after ApplyModifications)"""
     from pathlib import Path
@@ -329,14 +338,14 @@ def run_pipeline(paths, gw, modsel=None, name="test"):
         meta = al.ApplyLinks().run_molecule(meta)
         s2.snap = snapshot(meta)
     except Exception as e:                       # noqa: BLE001
-        s2.error = f"{type(e).__name__}: {e}"
+        s2.error = f"{type(e).__name__}: {e} @{_where(e)}"
         s3.error = s2.error
         return s2, s3
     try:
         meta = am.ApplyModifications(modifications=[list(m) for m in (modsel or [])], meta_molecule=meta).run_molecule(meta)
         s3.snap = snapshot(meta)
     except Exception as e:                       # noqa: BLE001
-        s3.error = f"{type(e).__name__}: {e}"
+        s3.error = f"{type(e).__name__}: {e} @{_where(e)}"
     return s2, s3
 
 
@@ -643,7 +652,7 @@ def c01_worker(args):
     return n_eval, n_nt, n_modapplied, found, counts, sample
 
 
-def _merge_findings(unit, res, outs, maxv=int(os.environ.get("B_GENPARAMS_MAXV", "5"))):
+def _merge_findings(unit, res, outs, maxv=int(os.environ.get("B_GENPARAMS_MAXV", "25"))):
     found, counts = {}, Counter()
     for o in outs:
         f, c = o[-3], o[-2]
@@ -671,8 +680,9 @@ def run_c01(ctx, res):
         for i, ffw in enumerate(ffs):
             paths = write_world_files(ffw, scratch, ffw["id"])
             # one job per (force field, group of graphs): balance the load
-            for j in range(0, len(graphs), 3):
-                jobs.append((ffw, paths, graphs[j:j + 3], offsets, cap, ctx.seed * 100003 + i * 101 + j))
+            gl = graphs + (PATH5 if ffw["kind"] == "multi" and not ctx.thorough else [])
+            for j in range(0, len(gl), 3):
+                jobs.append((ffw, paths, gl[j:j + 3], offsets, cap, ctx.seed * 100003 + i * 101 + j))
         with mp.Pool(NPROC) as pool:
             outs = pool.map(c01_worker, jobs, chunksize=1)
     finally:
@@ -690,7 +700,7 @@ def run_c01(ctx, res):
                  "(sections bonds/angles/exclusions/pairs/constraints/virtual_sitesn, tagged interactions; two section layouts "
                  f"{'both' if ctx.thorough else 'alternating'}) x syntax {{.ff, polyply .itp}} x {{no link, one bond link ('+' / '>' order; dangling bond in .itp)}}; "
                  "force fields with N-ter/C-ter modifications (-mods: default termini, first, last, middle residue); multi-residue from_itp blocks "
-                 f"({'(2,1),(1,2),(1,2,1),(2,2)' if ctx.thorough else '(2,1),(1,2)'} atoms per residue, 1-2 copies, every placement along residue-graph edges) with a link in a second file.  "
+                 f"({'(2,1),(1,2),(1,2,1),(2,2)' if ctx.thorough else '(2,1),(1,2)'} atoms per residue, 1-2 copies, every placement along residue-graph edges{'' if ctx.thorough else '; these worlds also on the 5-residue path'}) with a link in a second file.  "
                  f"Residue graphs: all {len(graphs)} connected graphs on <= {max_nodes} nodes (networkx atlas), node keys 0..n-1, resid = key + offset, offsets {{1,7}}, "
                  f"every resname assignment over the block names{' (capped at 81 seeded assignments per graph and force field: NOT exhaustive for 5 nodes x 3 names)' if cap else ''}.  "
                  f"Each world: MapToMolecule -> ApplyLinks -> ApplyModifications on the real code, contract checked after links and after modifications "
@@ -999,7 +1009,7 @@ def history_world(ffw, which):
 
 def c13_worker(args):
     os.environ["TQDM_DISABLE"] = "1"
-    ffw, scratch, graphs, offsets, limit, seed = args
+    ffw, scratch, graphs, offsets, limit, cap, seed = args
     rng = random.Random(seed)
     n_eval = n_nt = 0
     found, counts, sample = {}, Counter(), None
@@ -1015,7 +1025,7 @@ def c13_worker(args):
     hist = [history_world(ffw, 1), history_world(ffw, 2)]
     hist_graph = graph_world(3, [(0, 1), (1, 2)], [hist[0]["names"][0], hist[0]["names"][1], hist[0]["names"][0]], 1)
     for n, edges in graphs:
-        for gw, placement in c01_graph_worlds(ffw, n, edges, offsets, None, rng):
+        for gw, placement in c01_graph_worlds(ffw, n, edges, offsets, cap, rng):
             base2, base3 = run_pipeline(paths_for(ffw), gw, None)
             cb2, cb3 = canon(base2), canon(base3)
             for tname, tff, tgw, history in transforms(ffw, gw, rng, limit):
@@ -1033,9 +1043,14 @@ def c13_worker(args):
                     bad = ("c13-mods-" + kind, f"{tname}: after ApplyModifications {describe_diff(cb3, ct3)}")
                 if bad:
                     key = bad[0]
-                    if ffw["kind"] == "multi" and kind == "relabel" and placement and len(placement) == 2:
-                        key = "F11-multires-copies-relabel"
                     errs = [e for e in (base2.error, t2.error) if e]
+                    if ffw["kind"] == "multi" and placement and len(placement) == 2:
+                        if kind == "relabel":
+                            # node keys decide how list(set) is sliced into copies (and, for separate fragments, their numbering)
+                            key = "F11-multires-copies-relabel"
+                        elif any(e.startswith("IndexError") and e.endswith("@add_blocks") for e in errs):
+                            # keys unchanged, copies in separate fragments: fragments are numbered in node order but looked up in resid order
+                            key = "F18-multires-fragment-number-vs-resid-order"
                     if (ffw["kind"] == "multi" and sum("mismatch in the length" in e for e in errs) == 1
                             and len(gw["edges"]) >= len(gw["nodes"])):
                         # cyclic residue graph: which edges are DFS tree edges depends on insertion / edge order / labels
@@ -1060,7 +1075,8 @@ def c13_worker(args):
 def run_c13(ctx, res):
     import multiprocessing as mp
     max_nodes = 5 if ctx.thorough else 4
-    limit = 24 if ctx.thorough else 12
+    limit = 16 if ctx.thorough else 12
+    cap = 64 if ctx.thorough else None
     graphs = atlas_graphs(max_nodes)
     offsets = (1, 7)
     ffs = c13_force_fields(ctx.thorough)
@@ -1068,8 +1084,9 @@ def run_c13(ctx, res):
     try:
         jobs = []
         for i, ffw in enumerate(ffs):
-            for j in range(0, len(graphs), 1):
-                jobs.append((ffw, scratch, graphs[j:j + 1], offsets, limit, ctx.seed * 104729 + i * 977 + j))
+            gl = graphs + (PATH5 if ffw["kind"] == "multi" and not ctx.thorough else [])
+            for j in range(0, len(gl), 1):
+                jobs.append((ffw, scratch, gl[j:j + 1], offsets, limit, cap, ctx.seed * 104729 + i * 977 + j))
         with mp.Pool(NPROC) as pool:
             outs = pool.map(c13_worker, jobs, chunksize=1)
     finally:
@@ -1080,10 +1097,10 @@ def run_c13(ctx, res):
         if sample and len(res.samples) < 3:
             res.samples.append(sample)
     counts = _merge_findings("c13-relabel-reorder-history", res, outs)
-    res.exhaustive = True
+    res.exhaustive = cap is None
     res.bound = (f"{len(ffs)} force-field worlds (.ff with two links and mixed nrexcl; polyply .itp with dangling-bond links; mixed .ff + .itp files; terminal "
                  f"modifications; multi-residue from_itp block with 1-2 copies{'; three block types with nrexcl 0/4/2' if ctx.thorough else ''}) x all {len(graphs)} connected residue graphs on <= {max_nodes} nodes "
-                 "x every resname assignment / from_itp placement x resid offsets {1,7}.  Per world: every non-identity permutation of the node insertion order and of the "
+                 f"{'(+ the 5-residue path for the multi-residue world) ' if not ctx.thorough else ''}x every resname assignment{' (capped at 64 seeded assignments per graph for 3 names: NOT exhaustive there)' if cap else ''} / from_itp placement x resid offsets {{1,7}}.  Per world: every non-identity permutation of the node insertion order and of the "
                  f"node keys 0..n-1 (resids kept) for n <= 3, reversal + {limit - 1} seeded permutations for larger n (seeded beyond n = 3), all edges flipped, edge list reversed, definitions reversed "
                  "inside every file, file order reversed, every file split in two, 1 and 2 unrelated runs (same block names, other content) before the run in the same process.  "
                  "Compared: atoms in file order, multiset of (atoms, parameters, meta) per interaction type, nrexcl - after ApplyLinks and after ApplyModifications.")
